@@ -808,11 +808,20 @@ def _cart(run):
     return g
 
 
+@models.external("scipy.ndimage.generate_binary_structure")
+def _nd_gbs(engine, run, a, k):
+    return SOpaque("structuring element")
+
+
 @models.external("scipy.ndimage.label")
 def _nd_label(engine, run, a, k):
     g = _cart(run)
-    if a[0] is not g["mask_data"] or len(a) != 1 or k:
-        raise Undecided("ndimage.label with other arguments than the binary image")
+    if a[0] is not g["mask_data"]:
+        raise Undecided("ndimage.label of something else than the binary image")
+    run.oblige("the binary image is labelled with scipy's default structuring element: clusters are FACE-connected cells (the connectivity the merge across "
+               "periodic boundaries uses: only directly facing boundary cells are joined)", z3.BoolVal(len(a) == 1 and not k), kind="requires", assume_after=False)
+    if len(a) != 1 or k:
+        raise Undecided("ndimage.label with a structuring element")
     run.trust("ASSUMED (scipy.ndimage.label): labels the face-connected components of the non-zero cells 1..n (0 = background)")
     st = g["st"]
     g["labelled"] = True
